@@ -79,6 +79,12 @@ PAIRS = [
     (E('\\usepackage[russian]{babel} \\[a\\] $b$', True, 2, **MLK), E('\\[a\\] $b$', True, 2, **MLK)),
     (E('\\selectlanguage{austrian} x \\foreignlanguage{klingon}{y}', True, 2, **MLK), E('\\usepackage[ngerman,austrian]{babel} y \\foreignlanguage{klingon}{z} u', True, 2, **MLK)),
     (E('\\usepackage[klingon]{babel} x', True, 2, **MLK), E('\\documentclass[french,klingon]{article}\\usepackage{babel} y', True, 2, pack=None, lang='en-GB')),
+    (E('\\begin{align} a &= b \\end{align} \\eqref{x} \\textcolor{red}{c}', dcls='article', pack='amsmath,xcolor'),
+     E('\\begin{align} a &= b \\end{align} \\eqref{x} \\textcolor{red}{c}', dcls='article', pack=None)),
+    (E('\\href{u}{v} \\zzz a\\xspace b', dcls='scrartcl', pack='hyperref,xcolor', unkn=True),
+     E('\\href{u}{v} \\zzz a\\xspace b', dcls='scrartcl', pack='xspace', unkn=True)),
+    (E('\\newtheorem{thm}{Theorem} \\begin{thm}[Riesz] a \\end{thm}', **STAR), E('\\begin{thm}[Riesz] b \\end{thm}', **STAR)),
+    (E('\\newtheorem{lem}{Lemma} x', dcls='article', pack=None), E('\\documentclass{article} \\begin{lem}[Zorn] b \\end{lem}', pack=None)),
     (E('\\begin{itemize}\\item a \\begin{itemize} \\item b', dcls='article'), E('\\begin{itemize}\\item c\\end{itemize}', dcls='article')),
 ]
 POOL = [e for p in PAIRS for e in p]
